@@ -3,7 +3,7 @@ import pyside as P
 import rulesuite as RS
 from suites.c01 import RS_replay
 
-WANT = {"audit", "vars", "context", "original-modified"}
+WANT = {"audit", "vars", "context", "original-modified", "plans"}
 
 
 def run(ctx):
@@ -11,6 +11,7 @@ def run(ctx):
     res.rule = ("trees as in C01 with 30% equation roots, every rule-test input embedded in random contexts (under every parent kind and side); "
                 "every node x 11 rule configurations; distinct non-trivial = distinct (rule, tree, node) applied")
     res.suites = ["rules (apply_to result tree and result path vs extracted model)",
+                  "plans (object identities: for every node object of the result, the path it had in the tree the rule was applied to, or fresh, vs Plans.v)",
                   "oracle: heap audit of the result (parent/child consistency, arities, no shared node object, root without parent), subtrees outside the "
                   "rewritten neighbourhood unchanged, variable set unchanged, source tree of the clone bit-identical before/after"]
     ts = RS.standard_trees(ctx, ctx.n(600, 10000), eq_share=0.3)
